@@ -13,10 +13,12 @@ pub mod src;
 pub mod stubs;
 
 pub mod h_known;
+pub mod h_merge;
+pub mod h_vmap;
 
 /// Registry: `<proof name> = <body path>, unwind N, stubs [from => to, ...];`
 macro_rules! harnesses {
-    ( $( $pname:ident = $body:path, unwind $u:literal, stubs [ $( $sfrom:path => $sto:path ),* ] ; )* ) => {
+    ( $( $pname:ident = $body:expr, unwind $u:literal, stubs [ $( $sfrom:path => $sto:path ),* ] ; )* ) => {
         #[cfg(kani)]
         pub mod proofs {
             $(
@@ -41,46 +43,4 @@ macro_rules! harnesses {
     };
 }
 
-harnesses! {
-    known_add = crate::h_known::add, unwind 34, stubs [];
-    known_sub = crate::h_known::sub, unwind 34, stubs [];
-    known_and = crate::h_known::and, unwind 34, stubs [];
-    known_or = crate::h_known::or, unwind 34, stubs [];
-    known_xor = crate::h_known::xor, unwind 34, stubs [];
-    known_not = crate::h_known::not, unwind 34, stubs [];
-    known_lt = crate::h_known::lt, unwind 34, stubs [];
-    known_gt = crate::h_known::gt, unwind 34, stubs [];
-    known_slt = crate::h_known::slt, unwind 34, stubs [];
-    known_sgt = crate::h_known::sgt, unwind 34, stubs [];
-    known_eq = crate::h_known::eq, unwind 34, stubs [];
-    known_is_zero = crate::h_known::is_zero, unwind 34, stubs [];
-    known_shl = crate::h_known::shl, unwind 34, stubs [];
-    known_shr = crate::h_known::shr, unwind 34, stubs [];
-    known_sar = crate::h_known::sar, unwind 34, stubs [];
-    known_mul = crate::h_known::mul, unwind 34, stubs [
-        ethnum::intrinsics::mul2 => crate::stubs::mul2,
-        ethnum::intrinsics::mul3 => crate::stubs::mul3,
-        ethnum::intrinsics::umulc => crate::stubs::umulc
-    ];
-    known_div = crate::h_known::div, unwind 34, stubs [
-        ethnum::intrinsics::udivmod4 => crate::stubs::udivmod4
-    ];
-    known_rem = crate::h_known::rem, unwind 34, stubs [
-        ethnum::intrinsics::udivmod4 => crate::stubs::udivmod4
-    ];
-    known_sdiv = crate::h_known::sdiv, unwind 34, stubs [
-        ethnum::intrinsics::udivmod4 => crate::stubs::udivmod4
-    ];
-    known_smod = crate::h_known::smod, unwind 34, stubs [
-        ethnum::intrinsics::udivmod4 => crate::stubs::udivmod4
-    ];
-    known_exp_base2 = crate::h_known::exp_base2, unwind 34, stubs [];
-    known_exp_base01 = crate::h_known::exp_base01, unwind 34, stubs [];
-    known_exp_small_exponent = crate::h_known::exp_small_exponent, unwind 34, stubs [
-        ethnum::intrinsics::mul2 => crate::stubs::mul2,
-        ethnum::intrinsics::mul3 => crate::stubs::mul3,
-        ethnum::intrinsics::umulc => crate::stubs::umulc
-    ];
-    known_conversions = crate::h_known::conversions, unwind 34, stubs [];
-    known_twin = crate::h_known::twin, unwind 34, stubs [];
-}
+include!("registry.rs");
